@@ -449,6 +449,14 @@ func (u *Unmarshaler) parseOptionsWithContext(field reflect.StructField, m Value
 		key = u.opts.canonicalKey(key)
 
 		if len(options.OptionalDep) > 0 {
+			// the negation mark is not part of the key to canonicalize
+			dep := options.OptionalDep
+			if dep[0] == notSymbol {
+				dep = string(notSymbol) + u.opts.canonicalKey(dep[1:])
+			} else {
+				dep = u.opts.canonicalKey(dep)
+			}
+
 			// need to create a new fieldOption, because the original one is shared through cache.
 			options = &fieldOptions{
 				fieldOptionsWithContext: fieldOptionsWithContext{
@@ -460,7 +468,7 @@ func (u *Unmarshaler) parseOptionsWithContext(field reflect.StructField, m Value
 					EnvVar:     options.EnvVar,
 					Range:      options.Range,
 				},
-				OptionalDep: u.opts.canonicalKey(options.OptionalDep),
+				OptionalDep: dep,
 			}
 		}
 	}
